@@ -1,6 +1,245 @@
 import OtelVerif.Common.Line
 import OtelVerif.Model.C12
-/-! driver for C12 (stub) -/
-def main : IO UInt32 := do
-  IO.eprintln "drv_c12: not built yet"
-  return 2
+/-! driver for C12: model `c12-resolve` -/
+open OtelVerif OtelVerif.Line OtelVerif.C12
+
+namespace OtelVerif.Drivers.C12
+
+/-! ### value encoding (one token, no spaces)
+`n` null · `t`/`f` bool · `i<dec>;` int · `d<hex>;` float bits · `o<hex>;` other atom · `s<hex>;` string ·
+`l<n>;` then n values · `m<n>;` then n × (`<keyhex>;` value) · `x<orighex>;` then the value (expandedValue) -/
+
+def takeUntilSemi (cs : List Char) : Option (List Char × List Char) :=
+  let a := cs.takeWhile (· != ';')
+  match cs.drop a.length with
+  | ';' :: rest => some (a, rest)
+  | _ => none
+
+def unhexStr (cs : List Char) : Option Str :=
+  if cs.isEmpty then some [] else (unhexBytes (String.ofList cs)).map (·.map Char.ofNat)
+
+def hexStr (s : Str) : String :=
+  String.ofList (s.flatMap (fun c => [hexDigit (c.toNat / 16 % 16), hexDigit (c.toNat % 16)]))
+
+mutual
+partial def parseVal (cs : List Char) : Option (Val × List Char) :=
+  match cs with
+  | 'n' :: r => some (.null, r)
+  | 't' :: r => some (.bool true, r)
+  | 'f' :: r => some (.bool false, r)
+  | 'i' :: r => do
+    let (a, r') ← takeUntilSemi r
+    let i ← (String.ofList a).toInt?
+    pure (.int i, r')
+  | 'd' :: r => do
+    let (a, r') ← takeUntilSemi r
+    let bs ← unhexStr a
+    pure (.float (bs.foldl (fun acc c => acc * 256 + c.toNat) 0), r')
+  | 'o' :: r => do
+    let (a, r') ← takeUntilSemi r
+    pure (.other (← unhexStr a), r')
+  | 's' :: r => do
+    let (a, r') ← takeUntilSemi r
+    pure (.str (← unhexStr a), r')
+  | 'x' :: r => do
+    let (a, r') ← takeUntilSemi r
+    let o ← unhexStr a
+    let (v, r'') ← parseVal r'
+    pure (.expanded v o, r'')
+  | 'l' :: r => do
+    let (a, r') ← takeUntilSemi r
+    let n ← (String.ofList a).toNat?
+    let (xs, r'') ← parseVals n r'
+    pure (.list (Vals.ofList xs), r'')
+  | 'm' :: r => do
+    let (a, r') ← takeUntilSemi r
+    let n ← (String.ofList a).toNat?
+    let (kvs, r'') ← parseKVs n r'
+    pure (.map (KVs.ofList kvs), r'')
+  | _ => none
+partial def parseVals (n : Nat) (cs : List Char) : Option (List Val × List Char) :=
+  if n = 0 then some ([], cs) else do
+    let (v, r) ← parseVal cs
+    let (vs, r') ← parseVals (n - 1) r
+    pure (v :: vs, r')
+partial def parseKVs (n : Nat) (cs : List Char) : Option (List (Str × Val) × List Char) :=
+  if n = 0 then some ([], cs) else do
+    let (a, r) ← takeUntilSemi cs
+    let k ← unhexStr a
+    let (v, r') ← parseVal r
+    let (kvs, r'') ← parseKVs (n - 1) r'
+    pure ((k, v) :: kvs, r'')
+end
+
+def parseValTok (t : String) : Option Val :=
+  match parseVal t.toList with
+  | some (v, []) => some v
+  | _ => none
+
+def floatHex (bits : Nat) : String :=
+  String.ofList ((List.range 8).reverse.flatMap (fun i =>
+    let b := bits / (256 ^ i) % 256
+    [hexDigit (b / 16), hexDigit (b % 16)]))
+
+partial def showVal : Val → String
+  | .null => "n"
+  | .bool true => "t"
+  | .bool false => "f"
+  | .int i => s!"i{i};"
+  | .float b => s!"d{floatHex b};"
+  | .other t => s!"o{hexStr t};"
+  | .str s => s!"s{hexStr s};"
+  | .expanded v o => s!"x{hexStr o};" ++ showVal v
+  | .list xs => s!"l{xs.toList.length};" ++ String.join (xs.toList.map showVal)
+  | .map m =>
+    let kvs := m.toList.mergeSort (fun a b => !strLt b.1 a.1)
+    s!"m{kvs.length};" ++ String.join (kvs.map (fun kv => s!"{hexStr kv.1};" ++ showVal kv.2))
+
+def showErr : Err → String
+  | .dollarInName => "dollar-in-name"
+  | .provider => "provider"
+  | .invalidURI => "invalid-uri"
+  | .unsupportedScheme => "unsupported-scheme"
+  | .noString => "no-string"
+  | .tooMany => "too-many"
+  | .notMap => "not-map"
+
+/-! ### tokens: `L<hex>` lit · `C` close · `E` esc · `D` dollar · `R<schemehex>:<namehex>` · `N<namehex>` -/
+
+def parseTok (t : String) : Option Tok :=
+  match t.toList with
+  | ['C'] => some .close
+  | ['E'] => some .esc
+  | ['D'] => some .dollar
+  | 'L' :: r => (unhexStr r).map .lit
+  | 'N' :: r => (unhexStr r).map (.ref none)
+  | 'R' :: r =>
+    let a := r.takeWhile (· != ':')
+    match r.drop a.length with
+    | ':' :: b => do
+      let sc ← unhexStr a
+      let nm ← unhexStr b
+      pure (.ref (some sc) nm)
+    | _ => none
+  | _ => none
+
+def parseToks (t : String) : Option (List Tok) :=
+  if t = "-" then some [] else (t.splitOn ",").mapM parseTok
+
+/-! ### state -/
+
+structure St where
+  mode : Mode := .fixed
+  defaultScheme : Option Str := none
+  schemes : List Str := []
+  provs : List ((Str × Str) × Retrieved) := []
+  srcs : List Val := []          -- reversed
+  toks : List (Str × List Tok) := []
+  implRes : Option Val := none   -- the implementation's `obs res ok …`
+  implErr : Bool := false
+  bad : Option String := none
+  tokOnly : Bool := false
+
+def St.env (s : St) : Env :=
+  { mode := s.mode, defaultScheme := s.defaultScheme, schemes := s.schemes,
+    prov := fun sc nm => (s.provs.find? (fun e => e.1.1 == sc && e.1.2 == nm)).map (·.2) }
+
+def showTyped (v : Val) : String :=
+  let sv := match decodeString v with | some s => s!"s{hexStr s};" | none => "err"
+  let plain := sanitize false v
+  let iv := match plain with
+    | .float _ | .other _ => "skip"
+    | _ => match decodeInt v with | some i => s!"{i}" | none => "err"
+  let bv := match decodeBool v with | some true => "t" | some false => "f" | none => "err"
+  s!"s={sv} i={iv} b={bv}"
+
+def isEscCandidate : List Tok → Bool
+  | .esc :: .lit ('{' :: _) :: _ => true
+  | _ :: ts => isEscCandidate ts
+  | [] => false
+
+def hasRef (ts : List Tok) : Bool := numRefs ts > 0
+
+/-- the search oracle for the expansion clause: the implementation's value at `key` must be `sem toks` -/
+def checkTok (env : Env) (res : KVs) (key : Str) (toks : List Tok) : Option String :=
+  if !(tokOK env toks && numRefs toks < env.fuel) then none else
+  match sem env toks with
+  | none => none
+  | some want =>
+    let got := (res.lookup key).bind decodeString
+    if got == some want then none else
+      let area :=
+        if isEscCandidate toks && hasRef toks then "expand/escaped-and-real-reference"
+        else if hasRef toks then "expand/reference-value-wrong"
+        else "escape/unescape-wrong"
+      let gotS := match got with | some g => hexStr g | none => "none"
+      some s!"sig=C12/{area} key={hexStr key} want={hexStr want} got={gotS}"
+
+def handler : Handler St where
+  init := {}
+  onOp := fun s toks =>
+    match toks with
+    | "env" :: rest =>
+      let mode := if kv rest "mode" == some "pinned" then Mode.pinned else Mode.fixed
+      let ds := (kv rest "default").bind (fun h => unhexStr h.toList)
+      let schemes := match kv rest "schemes" with
+        | some l => (l.splitOn ",").filterMap (fun h => unhexStr h.toList)
+        | none => []
+      ({ s with mode := mode, defaultScheme := ds, schemes := schemes }, [])
+    | "prov" :: sc :: nm :: v :: rest =>
+      match unhexStr sc.toList, (if nm = "-" then some [] else unhexStr nm.toList), parseValTok v with
+      | some sc, some nm, some v =>
+        let sr := (kv rest "str").bind (fun h => if h = "-" then some [] else unhexStr h.toList)
+        ({ s with provs := s.provs ++ [((sc, nm), { raw := v, strRep := sr })] }, [])
+      | _, _, _ => (s, ["obs bad-op"])
+    | ["src", v] =>
+      match parseValTok v with
+      | some v => ({ s with srcs := v :: s.srcs }, [])
+      | none => (s, ["obs bad-op"])
+    | ["tok", key, ts] =>
+      match (if key = "-" then some [] else unhexStr key.toList), parseToks ts with
+      | some k, some ts => ({ s with toks := s.toks ++ [(k, ts)] }, [])
+      | _, _ => (s, ["obs bad-op"])
+    | "resolve" :: rest =>
+      let hint := (kv rest "hint").getD "-"
+      let s := { s with tokOnly := kv rest "tokonly" == some "1" }
+      match resolve s.env s.srcs.reverse with
+      | .error es =>
+        let names := es.map showErr
+        let pick := if names.contains hint then hint else names.headD "?"
+        (s, [s!"obs res err {pick}"])
+      | .ok m =>
+        let strmap := sanitize false (.map m)
+        let kvs := m.toList.mergeSort (fun a b => !strLt b.1 a.1)
+        (s, [s!"obs res ok {showVal (.map m)}", s!"obs strmap {showVal strmap}"]
+            ++ kvs.map (fun kv => s!"obs typed {hexStr kv.1} {showTyped kv.2}"))
+    | _ => (s, ["obs bad-op"])
+  onObs := fun s toks =>
+    match toks with
+    | [_, "res", "ok", v] =>
+      match parseValTok v with
+      | some v => { s with implRes := some v }
+      | none => { s with bad := some "unparsable res" }
+    | _ :: "res" :: "err" :: _ => { s with implErr := true }
+    | _ => s
+  onEnd := fun s =>
+    match s.bad with
+    | some b => [s!"prop tokens=FAIL sig=C12/harness/unparsable {b}"]
+    | none =>
+      let env := s.env
+      match s.implRes with
+      | some (.map res) =>
+        match s.toks.findSome? (fun kt => checkTok env res kt.1 kt.2) with
+        | some d => [s!"prop tokens=FAIL {d}"]
+        | none => ["prop tokens=ok"]
+      | _ =>
+        -- the implementation reported an error: a well-formed token value must not make resolution fail
+        if s.implErr && !s.toks.isEmpty && s.toks.all (fun kt => tokOK env kt.2 && numRefs kt.2 < env.fuel)
+           && s.tokOnly then
+          ["prop tokens=FAIL sig=C12/expand/error-on-wellformed-tokens"]
+        else ["prop tokens=ok"]
+
+end OtelVerif.Drivers.C12
+
+def main : IO UInt32 :=
+  runMulti [("c12-resolve", run OtelVerif.Drivers.C12.handler)]
